@@ -95,3 +95,63 @@ Example C19_writer_example :
   run_writer 8 [[1;2;3]; [4;5;6;7;8;9;10;6;6]; []; [6;6;6;6]]%N = Ok [1;2;3;4;5;6;7;8;9;10]%N
   /\ run_writer 8 [[1;2;3;4;5;9;3;3]]%N = Err 1.
 Proof. vm_compute. split; reflexivity. Qed.
+
+(* 3. The stream helpers.  cipher.BlockMode is abstract: any state machine that is block-aligned
+   stream-compatible (stream_ok) - CBC, ECB, the toy chaining mode of the correspondence run.
+   P7BlockEnc writes exactly mode(data ++ pad), whatever the source schedule; P7BlockDecrypt of a
+   block-aligned ciphertext is the un-padding writer applied to mode(ct), whatever the schedule. *)
+From GmsmVerif Require Import Pad.StreamProofs.
+
+Theorem C19_stream_enc_any_schedule :
+  forall (MS : Type) bs (crypt : MS -> list N -> MS * list N) data sched fuel st0,
+    1 <= bs <= 255 -> BUF mod bs = 0 -> stream_ok bs crypt ->
+    fuel >= length (pkcs7_pad bs data) / BUF + length sched + 3 ->
+    p7_block_enc bs crypt fuel st0 (mkSrc data sched) = Ok (snd (crypt st0 (pkcs7_pad bs data))).
+Proof. intros MS bs crypt data sched fuel st0 Hbs Hdiv Hok. exact (p7_block_enc_spec bs crypt Hbs Hdiv Hok data sched fuel st0). Qed.
+Print Assumptions C19_stream_enc_any_schedule.
+
+Theorem C19_stream_dec_any_schedule :
+  forall (MS : Type) bs (crypt : MS -> list N -> MS * list N) ct sched fuel st0,
+    1 <= bs <= 255 -> BUF mod bs = 0 -> stream_ok bs crypt ->
+    length ct mod bs = 0 -> fuel >= length ct / BUF + length sched + 3 ->
+    p7_block_decrypt bs crypt fuel st0 (mkSrc ct sched) = writer_spec bs (snd (crypt st0 ct)).
+Proof. intros MS bs crypt ct sched fuel st0 Hbs Hdiv Hok. exact (p7_block_decrypt_spec bs crypt Hbs Hdiv Hok ct sched fuel st0). Qed.
+Print Assumptions C19_stream_dec_any_schedule.
+
+(* Encrypting a stream with the helper and decrypting it with the helper returns the original
+   stream for every length and every pair of source schedules. *)
+Theorem C19_stream_roundtrip :
+  forall (ES DS : Type) bs (ecrypt : ES -> list N -> ES * list N) (dcrypt : DS -> list N -> DS * list N)
+         e0 d0 data sched1 sched2 fuel1 fuel2,
+    1 <= bs <= 255 -> BUF mod bs = 0 -> stream_ok bs ecrypt -> stream_ok bs dcrypt ->
+    (forall s, length s mod bs = 0 -> length (snd (ecrypt e0 s)) = length s) ->
+    (forall s, length s mod bs = 0 -> snd (dcrypt d0 (snd (ecrypt e0 s))) = s) ->
+    fuel1 >= length (pkcs7_pad bs data) / BUF + length sched1 + 3 ->
+    fuel2 >= length (pkcs7_pad bs data) / BUF + length sched2 + 3 ->
+    exists ct, p7_block_enc bs ecrypt fuel1 e0 (mkSrc data sched1) = Ok ct /\
+               p7_block_decrypt bs dcrypt fuel2 d0 (mkSrc ct sched2) = Ok data.
+Proof.
+  intros ES DS bs ecrypt dcrypt e0 d0 data sched1 sched2 fuel1 fuel2 Hbs Hdiv Hoe Hod Hlen Hinv Hf1 Hf2.
+  assert (Hal : length (pkcs7_pad bs data) mod bs = 0).
+  { rewrite length_pkcs7_pad. apply pad_total_multiple; lia. }
+  exists (snd (ecrypt e0 (pkcs7_pad bs data))). split.
+  - apply (p7_block_enc_spec bs ecrypt Hbs Hdiv Hoe); exact Hf1.
+  - rewrite (p7_block_decrypt_spec bs dcrypt Hbs Hdiv Hod).
+    + rewrite Hinv by exact Hal. apply writer_spec_pad; lia.
+    + rewrite Hlen by exact Hal. exact Hal.
+    + rewrite Hlen by exact Hal. exact Hf2.
+Qed.
+Print Assumptions C19_stream_roundtrip.
+
+(* non-vacuity of the BlockMode hypotheses: the identity mode satisfies them *)
+Example C19_stream_hyps_satisfiable :
+  stream_ok 16 (fun (st : unit) (b : list N) => (st, b)) /\ BUF mod 16 = 0.
+Proof. split; [split; [reflexivity | intros st a b _; reflexivity] | reflexivity]. Qed.
+
+Example C19_stream_example :
+  let data := [1;2;3;4;5;6;7;8;9;10]%N in
+  let iv := [0;0;0;0;0;0;0;0]%N in
+  p7_block_enc 8 (toy_enc 8 7) 9 iv (mkSrc data [(3,false);(0,false);(1,true)])
+    = Ok [8;9;10;11;12;13;14;15;24;26;23;24;25;26;27;28]%N /\
+  p7_block_decrypt 8 (toy_dec 8 7) 9 iv (mkSrc [8;9;10;11;12;13;14;15;24;26;23;24;25;26;27;28]%N [(5,false)]) = Ok data.
+Proof. vm_compute. split; reflexivity. Qed.
